@@ -28,6 +28,7 @@
 #  include <unifex/detail/atomic_intrusive_queue.hpp>
 #  include <unifex/detail/intrusive_heap.hpp>
 #  include <unifex/detail/intrusive_queue.hpp>
+#include <unifex/detail/verif_hooks.hpp>
 
 #  include <unifex/linux/monotonic_clock.hpp>
 #  include <unifex/linux/safe_file_descriptor.hpp>
@@ -416,6 +417,7 @@ class io_epoll_context::schedule_at_sender {
     }
 
     void request_stop_remote() noexcept {
+      UNIFEX_VERIF_YIELD("io.ep.t.stop_fa");
       auto oldState = this->state_.fetch_add(
           schedule_at_operation::cancel_pending_flag,
           std::memory_order_acq_rel);
@@ -549,6 +551,7 @@ class io_epoll_context::read_sender {
     void start_io() noexcept {
       UNIFEX_ASSERT(context_.is_running_on_io_thread());
 
+      UNIFEX_VERIF_YIELD("io.ep.r.start");
       auto result = readv(fd_, buffer_, 1);
 
       if (result == -EAGAIN || result == -EWOULDBLOCK || result == -EPERM) {
@@ -563,10 +566,12 @@ class io_epoll_context::read_sender {
         epoll_event event;
         event.data.ptr = static_cast<completion_base*>(this);
         event.events = EPOLLIN | EPOLLRDHUP | EPOLLHUP;
+        UNIFEX_VERIF_YIELD("io.ep.r.register");
         (void)epoll_ctl(context_.epollFd_.get(), EPOLL_CTL_ADD, fd_, &event);
         return;
       }
 
+      UNIFEX_VERIF_YIELD("io.ep.r.start_fa");
       auto oldState = state_.fetch_add(
           io_epoll_context::read_sender::operation<Receiver>::io_flag,
           std::memory_order_acq_rel);
@@ -604,8 +609,10 @@ class io_epoll_context::read_sender {
 
       UNIFEX_ASSERT(static_cast<completion_base&>(self).enqueued_.load() == 0);
 
+      UNIFEX_VERIF_YIELD("io.ep.r.complete");
       self.stopCallback_.destruct();
 
+      UNIFEX_VERIF_YIELD("io.ep.r.complete_fa");
       auto oldState = self.state_.fetch_add(
           io_epoll_context::read_sender::operation<Receiver>::io_flag,
           std::memory_order_acq_rel);
@@ -622,6 +629,7 @@ class io_epoll_context::read_sender {
       (void)epoll_ctl(
           self.context_.epollFd_.get(), EPOLL_CTL_DEL, self.fd_, &event);
 
+      UNIFEX_VERIF_YIELD("io.ep.r.complete_io");
       auto result = readv(self.fd_, self.buffer_, 1);
       UNIFEX_ASSERT(result != -EAGAIN);
       UNIFEX_ASSERT(result != -EWOULDBLOCK);
@@ -651,6 +659,7 @@ class io_epoll_context::read_sender {
 
       UNIFEX_ASSERT(static_cast<done_op&>(self).enqueued_.load() == 0);
 
+      UNIFEX_VERIF_YIELD("io.ep.r.done");
       if (static_cast<completion_base&>(self).enqueued_.load() == 0) {
         // Avoid instantiating set_done() if we're not going to call it.
         if constexpr (is_stop_ever_possible) {
@@ -667,6 +676,7 @@ class io_epoll_context::read_sender {
     }
 
     void request_stop() noexcept {
+      UNIFEX_VERIF_YIELD("io.ep.r.stop_fa");
       auto oldState = this->state_.fetch_add(
           io_epoll_context::read_sender::operation<
               Receiver>::cancel_pending_flag,
@@ -681,6 +691,7 @@ class io_epoll_context::read_sender {
         // We are responsible for scheduling the completion of this io
         // operation.
         static_cast<done_op&>(*this).execute_ = &operation::complete_with_done;
+        UNIFEX_VERIF_YIELD("io.ep.r.stop_sched");
         this->context_.schedule_remote(static_cast<done_op*>(this));
       }
     }
@@ -777,6 +788,7 @@ class io_epoll_context::write_sender {
     void start_io() noexcept {
       UNIFEX_ASSERT(context_.is_running_on_io_thread());
 
+      UNIFEX_VERIF_YIELD("io.ep.w.start");
       auto result = writev(fd_, buffer_, 1);
 
       if (result == -EAGAIN || result == -EWOULDBLOCK || result == -EPERM) {
@@ -792,10 +804,12 @@ class io_epoll_context::write_sender {
         epoll_event event;
         event.data.ptr = static_cast<completion_base*>(this);
         event.events = EPOLLOUT | EPOLLRDHUP | EPOLLHUP;
+        UNIFEX_VERIF_YIELD("io.ep.w.register");
         (void)epoll_ctl(context_.epollFd_.get(), EPOLL_CTL_ADD, fd_, &event);
         return;
       }
 
+      UNIFEX_VERIF_YIELD("io.ep.w.start_fa");
       auto oldState = state_.fetch_add(
           io_epoll_context::write_sender::operation<Receiver>::io_flag,
           std::memory_order_acq_rel);
@@ -833,12 +847,14 @@ class io_epoll_context::write_sender {
 
       UNIFEX_ASSERT(static_cast<completion_base&>(self).enqueued_.load() == 0);
 
+      UNIFEX_VERIF_YIELD("io.ep.w.complete");
       self.stopCallback_.destruct();
 
       epoll_event event = {};
       (void)epoll_ctl(
           self.context_.epollFd_.get(), EPOLL_CTL_DEL, self.fd_, &event);
 
+      UNIFEX_VERIF_YIELD("io.ep.w.complete_fa");
       auto oldState = self.state_.fetch_add(
           io_epoll_context::write_sender::operation<Receiver>::io_flag,
           std::memory_order_acq_rel);
@@ -851,6 +867,7 @@ class io_epoll_context::write_sender {
         return;
       }
 
+      UNIFEX_VERIF_YIELD("io.ep.w.complete_io");
       auto result = writev(self.fd_, self.buffer_, 1);
       UNIFEX_ASSERT(result != -EAGAIN);
       UNIFEX_ASSERT(result != -EWOULDBLOCK);
@@ -880,6 +897,7 @@ class io_epoll_context::write_sender {
 
       UNIFEX_ASSERT(static_cast<done_op&>(self).enqueued_.load() == 0);
 
+      UNIFEX_VERIF_YIELD("io.ep.w.done");
       if (static_cast<completion_base&>(self).enqueued_.load() == 0) {
         // Avoid instantiating set_done() if we're not going to call it.
         if constexpr (is_stop_ever_possible) {
@@ -896,6 +914,7 @@ class io_epoll_context::write_sender {
     }
 
     void request_stop() noexcept {
+      UNIFEX_VERIF_YIELD("io.ep.w.stop_fa");
       auto oldState = this->state_.fetch_add(
           io_epoll_context::write_sender::operation<
               Receiver>::cancel_pending_flag,
@@ -910,6 +929,7 @@ class io_epoll_context::write_sender {
         // We are responsible for scheduling the completion of this io
         // operation.
         static_cast<done_op&>(*this).execute_ = &operation::complete_with_done;
+        UNIFEX_VERIF_YIELD("io.ep.w.stop_sched");
         this->context_.schedule_remote(static_cast<done_op*>(this));
       }
     }
